@@ -39,6 +39,31 @@ pub fn supply_globals(r: &mut Rng, program: &Program) -> Vec<(String, Value)> {
 }
 
 /// generate programs until `n` are accepted by the loader (rejections are counted)
+thread_local! {
+    /// generated programs the implementation refused to load (text, message)
+    pub static REJECTED: std::cell::RefCell<Vec<(String, String)>> = std::cell::RefCell::new(Vec::new());
+}
+
+/// The generators mean their programs to be accepted; when the implementation rejects one, the model's loader decides
+/// whether that is the generator's fault (both reject: counted) or a difference between implementation and model.
+pub fn check_rejected(rep: &mut Report) {
+    let items: Vec<(String, String)> = REJECTED.with(|l| std::mem::take(&mut *l.borrow_mut()));
+    if items.is_empty() {
+        return;
+    }
+    let mut drv = crate::driver::Driver::spawn();
+    for (text, msg) in items {
+        rep.alive();
+        let verdict = crate::props::c06::model_load(&mut drv, &text);
+        if verdict.tag() == Some("loaded") {
+            rep.fail("disagreement", "a generated program is rejected by the implementation and accepted by the model's loader", false,
+                serde_json::json!({"tsg": text, "implementation": msg, "model": "loaded"}));
+        } else {
+            rep.count("rejected-by-both-implementation-and-model");
+        }
+    }
+}
+
 pub fn gen_loaded(rep: &mut Report, r: &mut Rng, pool: &[Pattern], opts: &Opts) -> Option<Loaded> {
     for _ in 0..20 {
         let program = dsl::gen_program(r, pool, opts);
@@ -55,6 +80,13 @@ pub fn gen_loaded(rep: &mut Report, r: &mut Rng, pool: &[Pattern], opts: &Opts) 
             Ok(Err(msg)) => {
                 let kind: String = msg.split(|c: char| c.is_ascii_digit() || c == '@' || c == '/').next().unwrap_or("").trim().chars().take(40).collect();
                 rep.count(&format!("rejected:{}", kind));
+                // kept for the end of the run: the model's loader must reject it too (see `check_rejected`)
+                REJECTED.with(|l| {
+                    let mut l = l.borrow_mut();
+                    if l.len() < 60 {
+                        l.push((program.text.clone(), msg.clone()));
+                    }
+                });
             }
             Err(()) => rep.count("loader-panic"),
         }
